@@ -22,11 +22,12 @@ from props.c01 import parse_args as put_file_args
 from sim import world as Wd
 
 ID = 'C09'
+TIER = 'quick'
 LEVEL = 'exploration'
 ENGINE = 'history'
 BUDGET = {'quick': 2000, 'thorough': 60000}
 WALL = {'quick': 50, 'thorough': 1500}
-RULE = ('histories of 4-14 simulated commands (put, restore, rm, empty, foreign additions, clock jumps) over '
+RULE = ('histories of 4-14 (quick) / 5-40 (thorough) simulated commands (put, restore, rm, empty, foreign additions, clock jumps) over '
         '1-4 volumes; after every step trash-list is run and compared with the model bag; non-trivial = the '
         'history changed the bag at least twice; distinct = distinct sequences of (command kind, bag size) pairs')
 ASSUMPTIONS = ['file names in histories are valid UTF-8 (the non-UTF-8 case belongs to C16/C19)',
@@ -60,7 +61,7 @@ def gen(rng):
     TG.populate(rng, L, steps, names=pool, now=start, only_usable=True)
     dirs = ['/', home, home + '/w', home + '/w/sub'] + [L['work'][v] for v in L['vols']] + list(L['vols'])
     procs = []
-    for _k in range(rng.randint(4, 14)):
+    for _k in range(rng.randint(4, 14) if TIER == 'quick' else rng.randint(5, 40)):
         r = rng.random()
         adv = rng.choice([0, 0, 1, 2, 59, 3600, 86400, 86400 * 3, 86400 * 40, -5])
         if r < 0.40 and user:
